@@ -66,7 +66,7 @@ type Step struct {
 
 // Scenario is one closed C17 scenario.
 type Scenario struct {
-	BigGeom  bool     `json:"big_geom,omitempty"` // generation note only: the pool holds a large multi-part geometry
+	BigGeom  bool     `json:"big_geom,omitempty"` // generation note only: the pool holds a large multi-part geometry or a long flat line
 	Pool     []Arg    `json:"pool"`
 	Calls    []Call   `json:"calls"`
 	Workers  [][]Step `json:"workers"`
@@ -102,7 +102,7 @@ func (prop) Describe() core.Description {
 		RealComponents: []string{"go-geom root package", "xy", "xyz", "bigxy", "xy/lineintersector", "transform", "encoding/wkb", "encoding/ewkb", "wkbhex/ewkbhex", "SQL wrappers", "encoding/wkt", "encoding/geojson", "encoding/kml", "encoding/igc", "Go runtime scheduler and race detector"},
 		StubComponents: []string{"caller goroutines (seeded programs)", "io.Reader/io.Writer under stream codecs (simio, per call)"},
 		FaultKinds:     []string{"shared-argument-overlap", "same-call-on->=2-workers", "gosched-yields"},
-		Probes:         []string{"probe:hull>50pts", "probe:hull-degenerate-octagon", "probe:decoder-and-encoder-share-bytes", "probe:wkt-parse-x>=4", "probe:panic-as-result", "probe:maxprocs=1", "probe:workers>=8", "probe:shared-option-value-on->=2-workers", "probe:large-multi-part-geometry", "probe:geometry-with-layout-none-or->XYZM", "probe:refused-geometry-meets-shared-option-value"},
+		Probes:         []string{"probe:hull>50pts", "probe:hull-degenerate-octagon", "probe:decoder-and-encoder-share-bytes", "probe:wkt-parse-x>=4", "probe:panic-as-result", "probe:maxprocs=1", "probe:workers>=8", "probe:shared-option-value-on->=2-workers", "probe:large-multi-part-geometry", "probe:flat-line>=2048-segments", "probe:geometry-with-layout-none-or->XYZM", "probe:refused-geometry-meets-shared-option-value"},
 	}
 }
 
@@ -482,7 +482,44 @@ func diffSnap(a, b []snap) (int, string) {
 
 // ---- execution ------------------------------------------------------------------------
 
-func runCall(c *Call, items []*item) (out string) {
+// storeF and storeB write through a pointer in a function of their own, so
+// that the compiler cannot drop the store of a value that is already there.
+//
+//go:noinline
+func storeF(p *float64, v float64) { *p = v }
+
+//go:noinline
+func storeB(p *byte, v byte) { *p = v }
+
+// touchArgs is the caller using its own arguments again as soon as a call has
+// returned: every float and byte of the arguments is written (with the value
+// it holds, so nothing changes). Library code that still reads an argument
+// after it returned — a worker goroutine that was not waited for — then races
+// with these writes in the -race worker. Only the solo phase does this: there
+// the arguments belong to the one caller.
+func touchArgs(args []*item) {
+	for _, a := range args {
+		for i := range a.f {
+			storeF(&a.f[i], a.f[i])
+		}
+		for i := range a.c {
+			storeF(&a.c[i], a.c[i])
+		}
+		for i := range a.b {
+			storeB(&a.b[i], a.b[i])
+		}
+		if a.g != nil {
+			if _, coll := a.g.(*geom.GeometryCollection); !coll {
+				fc := a.g.FlatCoords()
+				for i := range fc {
+					storeF(&fc[i], fc[i])
+				}
+			}
+		}
+	}
+}
+
+func runCall(c *Call, items []*item, touch bool) (out string) {
 	f := table[tableIndex[c.Fn]]
 	args := make([]*item, len(c.A))
 	for i, ai := range c.A {
@@ -494,6 +531,9 @@ func runCall(c *Call, items []*item) (out string) {
 		}
 	}()
 	v := f.f(c, args)
+	if touch {
+		touchArgs(args)
+	}
 	out = canon(v)
 	if !returnsView[c.Fn] && !aliasesArgs(v, args) {
 		// the result is the caller's: it is overwritten right away. A result
@@ -703,6 +743,12 @@ func (prop) Execute(scAny any, phase string, log *core.Log) core.Result {
 	if s.BigGeom {
 		res.Count("probe:large-multi-part-geometry", 1)
 	}
+	for i := range s.Pool {
+		if s.Pool[i].K == "f" && len(s.Pool[i].F) >= 2049 {
+			res.Count("probe:flat-line>=2048-segments", 1)
+			break
+		}
+	}
 	if len(s.Workers) >= 8 {
 		res.Count("probe:workers>=8", 1)
 	}
@@ -727,7 +773,7 @@ func (prop) Execute(scAny any, phase string, log *core.Log) core.Result {
 					for y := 0; y < st.Yield; y++ {
 						runtime.Gosched()
 					}
-					results[w][k] = runCall(&s.Calls[st.Call], items)
+					results[w][k] = runCall(&s.Calls[st.Call], items, false)
 				}
 			}(w)
 		}
@@ -747,7 +793,7 @@ func (prop) Execute(scAny any, phase string, log *core.Log) core.Result {
 	for ci := range s.Calls {
 		c := &s.Calls[ci]
 		before := snapshot(items)
-		r1 := runCall(c, items)
+		r1 := runCall(c, items, true)
 		after := snapshot(items)
 		res.Steps++
 		if i, d := diffSnap(before, after); i >= 0 {
@@ -762,7 +808,7 @@ func (prop) Execute(scAny any, phase string, log *core.Log) core.Result {
 			res.Fail("argument-mutated", "argument-mutated:"+c.Fn, "%s wrote into the slice the caller passed as its variadic argument (beyond or inside its length); call %+v", c.Fn, *c)
 			return res
 		}
-		r2 := runCall(c, items)
+		r2 := runCall(c, items, true)
 		res.Steps++
 		if r1 != r2 {
 			res.Fail("not-deterministic", "not-deterministic:"+c.Fn, "%s returned different results on two identical solo calls:\n  %s\n  %s", c.Fn, short(r1), short(r2))
@@ -1299,6 +1345,48 @@ func (prop) Generate(r *prng.Rand, phase string) any {
 				if ti, ok := tableIndex[n]; ok && len(table[ti].kinds) == 1 {
 					s.Calls = append(s.Calls, Call{Fn: n, A: []int{len(g.pool) - 1}, I: r.Intn(64)})
 				}
+			}
+			s.BigGeom = true
+		}
+	}
+	if r.Chance(0.02) {
+		// a long flat line (2 100 ... 6 500 coordinates) with a query point on
+		// one of its first segments, and the flat-coordinate functions on it:
+		// where a library would split the scan between goroutines and return
+		// as soon as one of them has the answer
+		l := 1 + r.Intn(4)
+		st := mgeom.Stride(l)
+		n := []int{2100, 4200, 6500}[r.Intn(3)] + r.Range(-2, 2)
+		line := make([]mgeom.Coord, 0, n)
+		for i := 0; i < n; i++ {
+			c := make(mgeom.Coord, st)
+			c[0] = mgeom.F(float64(i))
+			c[1] = mgeom.F(float64(r.Range(-3, 3)))
+			for j := 2; j < st; j++ {
+				c[j] = mgeom.F(float64(r.Range(-3, 3)))
+			}
+			line = append(line, c)
+		}
+		at := r.Range(0, 8)
+		if r.Chance(0.2) {
+			at = r.Intn(n)
+		}
+		pt := append(mgeom.Coord(nil), line[at][:2]...)
+		fa := Arg{K: "f", L: l, F: line, Cap: []int{0, 3}[r.Intn(2)]}
+		ca := Arg{K: "c", C: pt}
+		if items, err := buildPool([]Arg{fa, ca}); err == nil {
+			g.s.Pool = append(g.s.Pool, fa, ca)
+			g.pool = append(g.pool, items...)
+			fi, ci := len(g.pool)-2, len(g.pool)-1
+			s.Calls = append(s.Calls, Call{Fn: "xy.IsOnLine", A: []int{fi, ci}})
+			names := []string{"xy.RingPredicates", "xy.IsRingCounterClockwise", "xy.PointsCentroidFlat", "xy.SimplifyFlatCoords"}
+			for i := r.Range(0, 2); i > 0; i-- {
+				nm := names[r.Intn(len(names))]
+				c := Call{Fn: nm, A: []int{fi}, I: r.Intn(64), X: mgeom.F(float64(r.Range(0, 20)) / 4)}
+				if len(table[tableIndex[nm]].kinds) == 2 {
+					c.A = append(c.A, ci)
+				}
+				s.Calls = append(s.Calls, c)
 			}
 			s.BigGeom = true
 		}
